@@ -9,7 +9,7 @@ from ..paths import walk_shallow, facts_at
 from ..guards import Evaluator
 from ..codec import extract, feasible_branches, consistent_branch
 from ..tables import Tables
-from .common import where, same_function, grid
+from .common import check_header_copy_first, where, same_function, grid
 from .c08 import _sig
 
 MOD = "bvll"
@@ -44,6 +44,7 @@ def r1(ctx):
     e, d = c.methods.get("encode"), c.methods.get("decode")
     if e is None or d is None:
         raise AnchorMissing("BVLCI.encode/decode")
+    check_header_copy_first(ctx, c, d, "BVLCI.decode")
     enc = [b for b in extract(prog, c, e, "encode") if consistent_branch(b)]
     dec = [b for b in extract(prog, c, d, "decode") if consistent_branch(b)]
     okb = [b for b in enc if b.term != "raise"]
@@ -53,7 +54,7 @@ def r1(ctx):
     st = [s for t, s in stores_in(init) if is_self_attr(t, "bvlciType")] if init else []
     ctx.check("BVLCI.__init__:type", len(st) == 1 and prog.try_const(m, st[0].value) == 0x81, where(m, init or c.node), "frames must start with type 0x81")
     # encode refuses a wrong declared length
-    for ln, L in ((4, 0), (10, 6), (5, 0), (9, 6), (0, 0)):
+    for ln, L in ((4, 0), (10, 6), (5, 0), (9, 6), (0, 0), (1497, 1493), (1498, 1494), (1507, 1503), (65535, 65531)):
         env = {"self.bvlciLength": ln, "len(self.pduData)": L}
         fb = feasible_branches(enc, ev, env)
         good = ln == L + 4
@@ -70,7 +71,8 @@ def r1(ctx):
     ctx.check("BVLCI.decode:layout", ok, where(m, d), "the header must be read as type(1) function(1) length(2) into the three fields")
     p = d.args.args[1].arg
     L = "len(%s.pduData)" % p
-    for t, ln, rest, good in ((0x81, 4, 0, True), (0x81, 10, 6, True), (0x82, 4, 0, False), (0x01, 4, 0, False), (0x81, 5, 0, False), (0x81, 4, 1, False), (0x81, 9, 6, False)):
+    for t, ln, rest, good in ((0x81, 4, 0, True), (0x81, 10, 6, True), (0x82, 4, 0, False), (0x01, 4, 0, False), (0x81, 5, 0, False), (0x81, 4, 1, False), (0x81, 9, 6, False),
+                              (0x81, 1497, 1493, True), (0x81, 1498, 1494, True), (0x81, 1507, 1503, True), (0x81, 65535, 65531, True), (0x81, 1507, 1502, False)):
         env = {"_r0": t, "_r1": 0, "_r2": ln, L: rest}
         fb = feasible_branches(dec, ev, env)
         ok = bool(fb) and all((b.term != "raise") == good for b in fb) and all(b.term != "raise" or b.items[-1].extra == "DecodingError" for b in fb)
